@@ -237,7 +237,7 @@ func runC01(c *Ctx) {
 				if caseNo%3 == 0 {
 					// the key already holds an object with headers of its own: every header this PUT
 					// names must win over what was there
-					if pr := s.Put(bucket, key, []byte("earlier object"), drv.H("Content-Type", "text/x-earlier", "Content-Encoding", "identity", "Content-Disposition", "inline", "x-amz-meta-alpha", "earlier", "x-amz-meta-rep", "earlier", "x-amz-meta-latin", "earlier")); pr.Status != 200 {
+					if pr := s.Put(bucket, key, []byte("earlier object"), drv.H("Content-Type", "text/x-earlier", "Content-Encoding", "identity", "Content-Disposition", "inline", "x-amz-meta-alpha", "earlier", "x-amz-meta-rep", "earlier", "x-amz-meta-latin", "earlier", "x-amz-meta-empty", "earlier", "x-amz-meta-mixed-case", "earlier")); pr.Status != 200 {
 						r.Violation(sig("C01", backendClass(j.kind), "upload-refused", "put,"+sizeClassOf(size)), fmt.Sprintf("%s PUT of the earlier object: %s", j.kind, pr), respDesc(pr))
 						return
 					}
